@@ -107,7 +107,11 @@ DEFECTS = {
         ("def text-matcher BADM = ! matches '('\nstdout BADM", ('assert',)),
         ("def line-matcher BADL = ! contents matches '('\nfile r2.txt = 'a' -transformed-by filter BADL", ALLP),
         ("def integer-matcher BADI = ! == abc\nexit-code BADI", ('assert',)),
-        ("file r.txt = 'a' -transformed-by filter ! contents matches '('", ALLP)],
+        ("file r.txt = 'a' -transformed-by filter ! contents matches '('", ALLP),
+        # a files-condition may name one file several times (the matchers are combined): every one of them is validated
+        ("dir-contents . : matches {\n  same.txt : contents matches '('\n  same.txt : type file\n}", ('assert',)),
+        ("dir-contents . : matches -full {\n  same.txt : contents equals -contents-of -rel-home nofile.txt\n  other.txt\n  same.txt\n}", ('assert',)),
+        ("def files-condition BADFC = {\n  same.txt : contents matches '('\n  same.txt : type file\n}\ndir-contents . : matches BADFC", ('assert',))],
     'bad_regex': [("file r.txt = 'a' -transformed-by replace '(' x", ALLP),
                   ("file r.txt = 'a' -transformed-by filter contents matches '['", ALLP),
                   ("stdout matches '('", ('assert',))],
@@ -142,6 +146,12 @@ SUITE_SHARED = [
     ("file r.txt = 'a' -transformed-by replace @[PERCASE]@ x", 'a', '(', ('before-assert', 'assert', 'cleanup')),
     ('exit-code == @[PERCASE]@', '0', '1.5', ('assert',)),
     ('% sp -existing-file @[PERCASE]@', 'existing.txt', 'no-such-file.txt', ('before-assert', 'assert', 'cleanup')),
+    # the two cases stand in different directories - their home directories differ: a file that exists in the home of the
+    # first case and not in that of the second is missing for the second (fifth element: the cases get homes of their own)
+    ('copy -rel-home data.txt copied.txt', '-', '-', ('before-assert', 'assert', 'cleanup'), 'homes'),
+    ('copy @[EXACTLY_HOME]@/data.txt copied.txt', '-', '-', ('before-assert', 'assert', 'cleanup'), 'homes'),
+    ('% sp -existing-file -rel-act-home data.txt', '-', '-', ('before-assert', 'assert', 'cleanup'), 'homes'),
+    ("file r.txt = -contents-of -rel EXACTLY_HOME data.txt", '-', '-', ('before-assert', 'assert', 'cleanup'), 'homes'),
 ]
 
 BASE_DEFS = ['def string STRSYM = s', 'def list LISTSYM = a b', 'def path HOMEP = -rel-home hp',
@@ -399,16 +409,23 @@ def _execute_suite(plan, scratch):
     w = world_mod.World(os.path.join(scratch, 'w'))
     w.populate(plan['files'])
     spec = plan['spec']
-    instr, valid, invalid, _ = SUITE_SHARED[spec['variant']]
+    instr, valid, invalid = SUITE_SHARED[spec['variant']][:3]
+    homes = len(SUITE_SHARED[spec['variant']]) > 4
     ph = spec['phase']
 
     def case_text(n, value):
         return ('[setup]\ndef string PERCASE = \'%s\'\n%% k%d-setup\n[act]\n%% k%d-atc\n[before-assert]\n%% k%d-ba\n'
                 '[assert]\n%% k%d-as\n[cleanup]\n%% k%d-cl\n' % (value, n, n, n, n, n))
 
-    w.write('home/k1.case', case_text(1, valid))
-    w.write('home/k2.case', case_text(2, invalid))
-    w.write('home/s.suite', '[cases]\nk1.case\nk2.case\n[%s]\n%s\n' % (ph, instr))
+    if homes:
+        w.write('home/a/k1.case', case_text(1, valid))
+        w.write('home/a/data.txt', 'only in the home directory of the first case\n')
+        w.write('home/b/k2.case', case_text(2, invalid))
+        w.write('home/s.suite', '[cases]\na/k1.case\nb/k2.case\n[%s]\n%s\n' % (ph, instr))
+    else:
+        w.write('home/k1.case', case_text(1, valid))
+        w.write('home/k2.case', case_text(2, invalid))
+        w.write('home/s.suite', '[cases]\nk1.case\nk2.case\n[%s]\n%s\n' % (ph, instr))
     sim = kernel.Sim(plan, w)
     before = w.snapshot()
     with patches.installed(sim):
